@@ -8,7 +8,7 @@ skipped.  A consumer trusts the length field (read_header_from_file treats heade
 already loaded), so a violation is a read beyond the block.
 """
 from ..ir import strip, show
-from .common import Lin, pstr, run_rule
+from .common import Lin, pstr, run_rule, base_term
 
 PAIRS = (
     # pointer field, length field
@@ -77,7 +77,7 @@ def make_rule(prog, fn, pairs=PAIRS):
             if not new:
                 return ts2
             terms = s.static_terms
-            keep = frozenset(x for x in new if set(k.split('@')[0].split('#')[0] for k in x[1].t) & terms)
+            keep = frozenset(x for x in new if set(base_term(k) for k in x[1].t) & terms)
             return before | keep
 
         def sym_node(s, ctx, node, ts):
@@ -120,7 +120,7 @@ def make_rule(prog, fn, pairs=PAIRS):
                     need = fields[spath] - asize
 
                     def nonpos(l):
-                        return l.c <= 0 and all(v <= 0 and k.split('@')[0].split('#')[0] in s.unsigned_terms
+                        return l.c <= 0 and all(v <= 0 and base_term(k) in s.unsigned_terms
                                                 for k, v in l.t.items())
                     ok = nonpos(need)
                     if not ok:
